@@ -576,9 +576,20 @@ FORGE_AUDIT = [
 ]
 
 
-def rule_forge(ctx, F):
-    R = "C03.forge"
-    ctx.floor(R, 60)
+def rule_forge(ctx, F, R="C03.forge", validated=None, len_limit=None, audit=None, floor=60, min_ctors=10):
+    VALIDATED = validated if validated is not None else globals()["VALIDATED"]
+    LEN_LIMIT = len_limit if len_limit is not None else globals()["LEN_LIMIT"]
+    FORGE_AUDIT = audit if audit is not None else globals()["FORGE_AUDIT"]
+    global _CUR_VALIDATED
+    _CUR_VALIDATED = VALIDATED
+    try:
+        _rule_forge(ctx, F, R, VALIDATED, LEN_LIMIT, FORGE_AUDIT, floor, min_ctors)
+    finally:
+        _CUR_VALIDATED = None
+
+
+def _rule_forge(ctx, F, R, VALIDATED, LEN_LIMIT, FORGE_AUDIT, floor, min_ctors):
+    ctx.floor(R, floor)
     # unsafe constructors returning a validated type
     ctors = {}
     for p, fn in F.fns.items():
@@ -587,8 +598,8 @@ def rule_forge(ctx, F):
         ret = fn["ret"].replace("&", "").replace("mut ", "").strip()
         if any(ret.startswith(v) or ("<" + v) in ret or ret.startswith("Self") for v in VALIDATED) and any(v in p for v in VALIDATED):
             ctors[p] = fn
-    ctx.anchor(R, "unsafe constructors of validated name types", len(ctors) >= 10)
-    ctx.note("C03.forge: %d unsafe constructors: %s" % (len(ctors), sorted(c.split("::")[-1] for c in ctors)[:40]))
+    ctx.anchor(R, "unsafe constructors of validated types", len(ctors) >= min_ctors)
+    ctx.note("%s: %d unsafe constructors: %s" % (R, len(ctors), sorted(c.split("::")[-1] for c in ctors)[:40]))
     n = 0
     counts = {"U1": 0, "U2": 0, "U3": 0, "U4": 0}
     seen = {}
@@ -727,8 +738,15 @@ def rule_raw(ctx, F):
     ctx.anchor(R, "unchecked constructors of the validated name types", m >= 8)
 
 
+_CUR_VALIDATED = None
+
+
+def _cur():
+    return _CUR_VALIDATED if _CUR_VALIDATED is not None else VALIDATED
+
+
 def _validated_of(fn):
-    for v in VALIDATED:
+    for v in _cur():
         if fn and v in fn:
             return v
     return "?"
@@ -739,7 +757,8 @@ def _is_validated_ty(ty):
         return False
     s = ty.replace("&", " ").replace("mut ", " ")
     s = re.sub(r"'\w+", " ", s).strip()
-    return any(s.startswith(v + "<") or s == v or s.startswith(v + " ") for v in VALIDATED)
+    # the type itself, not an item defined inside one of its methods (`Nsec3Salt<Octs>::scan::Converter`)
+    return any(re.match(r"^%s(<.*>)?$" % re.escape(v), s) is not None or s.startswith(v + " ") for v in _cur())
 
 
 def _term_type(b, s, F):
